@@ -1,0 +1,41 @@
+//go:build verif
+// +build verif
+
+// verif hooks for property C15 (add-only, compiled only with -tags verif): rewriteHandler split at its snapshot point.
+
+package mod_rewrite
+
+import (
+	"net/url"
+)
+
+import (
+	"github.com/bfenetworks/bfe/bfe_basic"
+)
+
+func (m *ModuleReWrite) VerifC15Reload(path string) error {
+	q := url.Values{}
+	q.Set("path", path)
+	return m.loadConfData(q)
+}
+
+func (m *ModuleReWrite) VerifC15Take(product string) interface{} {
+	rules, ok := m.ruleTable.Search(product)
+	if !ok {
+		return nil
+	}
+	return rules
+}
+
+func (m *ModuleReWrite) VerifC15Use(snap interface{}, req *bfe_basic.Request) string {
+	if snap == nil {
+		return "-"
+	}
+	ReqReWrite(req, snap.(*RuleList))
+	return req.HttpRequest.URL.Path
+}
+
+func (m *ModuleReWrite) VerifC15Handle(req *bfe_basic.Request) string {
+	m.rewriteHandler(req)
+	return req.HttpRequest.URL.Path
+}
